@@ -66,7 +66,11 @@ func startClusterRun(c *Ctx, mons ...monitor) *clusterRun {
 	cl := newCluster(c.Sim, plan)
 	cx := &clusterRun{c: c, cl: cl, mons: mons, crashT: map[int]time.Duration{}, leaveT: map[int]time.Duration{}, leaveDone: map[int]time.Duration{}, restarts: map[int]int{}, heavyEvery: 1}
 	for i := 0; i < plan.N; i++ {
-		cl.addNode(fmt.Sprintf("n%d", i), ipFor(plan, i), plan.Cfg)
+		name := fmt.Sprintf("n%d", i)
+		if i < len(plan.Names) && plan.Names[i] != "" {
+			name = plan.Names[i]
+		}
+		cl.addNode(name, ipFor(plan, i), plan.Cfg)
 	}
 	for i := range plan.Ops {
 		op := plan.Ops[i]
@@ -277,6 +281,22 @@ func (cx *clusterRun) execOp(rec *opRec) {
 		if err != nil {
 			rec.Err = err.Error()
 		}
+	case "sendaddr":
+		if !n.running() {
+			rec.Err = "not running"
+			return
+		}
+		to := cx.node(int(op.B))
+		if to == nil {
+			return
+		}
+		if err := n.m.SendToAddress(Address{Addr: to.ep.addr, Name: to.name}, op.Buf); err != nil {
+			rec.Err = err.Error()
+		}
+	case "setstate":
+		n.mu.Lock()
+		n.localState = op.Buf
+		n.mu.Unlock()
 	case "slowdelegate":
 		n.mu.Lock()
 		n.slowMsg = time.Duration(op.A)
